@@ -395,13 +395,22 @@ func (s *stream) count() int {
 	return len(s.out)
 }
 
+// waitFor returns when k responses have been sent, or when nothing has been
+// sent for half a second (the sender is then parked; a clean tree sends the
+// next pass within microseconds of the Poll).
 func (s *stream) waitFor(k int) {
 	deadline := time.After(10 * time.Second)
-	for s.count() < k {
+	last, idle := s.count(), time.Now()
+	for last < k {
 		select {
 		case <-s.sent:
 		case <-time.After(5 * time.Millisecond):
 		case <-deadline:
+			return
+		}
+		if n := s.count(); n != last {
+			last, idle = n, time.Now()
+		} else if time.Since(idle) > 500*time.Millisecond {
 			return
 		}
 	}
@@ -531,6 +540,8 @@ func runPoll(c Case, cfg *fpb.Config, pass int) (p1, p2 []Obs) {
 	return p1, p2
 }
 
+var pollHangs int
+
 func guarded(f func() []Obs) []Obs {
 	ch := make(chan []Obs, 1)
 	go func() { ch <- f() }()
@@ -584,6 +595,11 @@ func observe(c *Case) (mutated bool) {
 	cfg := &fpb.Config{Target: "t", Seed: c.Seed, Values: vals, DisableSync: c.NoSync}
 	var seqs [][]Obs
 	switch {
+	case c.Poll && pollHangs >= 3:
+		// the second pass never arrives on this tree; three witnesses are enough
+		c.Poll = false
+		c.Family = "client"
+		return observe(c)
 	case c.Poll:
 		qs := guarded(func() []Obs { return runQueue(*c, vals) })
 		ok := len(qs) > 0 && qs[len(qs)-1].Kind == "end" && qs[len(qs)-1].End == "done"
@@ -603,6 +619,9 @@ func observe(c *Case) (mutated bool) {
 		r := guarded(func() []Obs { p1, p2 = runPoll(*c, cfg, pass); return nil })
 		if r != nil {
 			p1, p2 = r, r
+		}
+		if len(p2) > 0 && p2[len(p2)-1].End == "hang" {
+			pollHangs++
 		}
 		seqs = [][]Obs{p1, p2, s0}
 	case c.Client:
